@@ -197,7 +197,7 @@ class Model:
             kind = p.op["kind"]
             if kind in ATOMIC_KINDS:
                 word_pts.append(p)
-            elif kind in ("memset", "client::fill"):
+            elif kind in ("memset", "client::fill", "client::fill_range"):
                 range_pts.append(p)
             elif kind == "client::check":
                 chk_pts.append(p)
@@ -258,6 +258,8 @@ class Model:
             a = p.op["args"]
             if p.op["kind"] == "memset":
                 lo, byte, n = self._as64(a[0]), a[1], self._as64(a[2])
+            elif p.op["kind"] == "client::fill_range":
+                lo, n, byte = self._as64(a[0]), self._as64(a[1]), a[2]
             else:
                 meta, byte = a[0], a[1]
                 lo, n = self._as64(meta.f[3]), self._as64(meta.f[4])
